@@ -19,7 +19,7 @@ from typing import Any, Dict, List, Optional
 
 from ..core import PropCheck
 
-LAYERS = ["partial", "method", "classmethod", "staticmethod", "wraps"]
+LAYERS = ["partial", "method", "classmethod", "staticmethod", "wraps", "wraps_obj", "lru_cache"]
 
 
 def build_tower(layers: List[str], base: Any) -> Any:
@@ -38,6 +38,14 @@ def build_tower(layers: List[str], base: Any) -> Any:
             def wrapper(*a, **kw):
                 return None
             t = functools.update_wrapper(wrapper, t, assigned=(), updated=())
+        elif l == "wraps_obj":
+            # a class-based decorator: the wrapping layer is a callable object, not a function
+            class Deco:
+                def __call__(self, *a, **kw):
+                    return None
+            t = functools.update_wrapper(Deco(), t, assigned=(), updated=())
+        elif l == "lru_cache":
+            t = functools.lru_cache(maxsize=None)(t)          # a C-implemented wrapper object carrying __wrapped__
         else:
             raise ValueError(l)
     return t
@@ -153,6 +161,8 @@ class C12(PropCheck):
         d = dict(case)
         d["p"] = "C12"
         if case["k"] == "tower":
+            # (for the model every layer that is followed through __wrapped__ is the same kind of layer)
+            d["layers"] = ["wraps" if l in ("wraps_obj", "lru_cache") else l for l in case["layers"]]
             if case["base"] == "nested":
                 d["base"] = "func"
                 d["children"] = self.tree
